@@ -14,7 +14,7 @@ def run():
                             # (send | join) x RX1 outcome x RX2 outcome x radio fault position, every one followed by a second procedure
                             ["cmd=awalk"]],
         "device panicked, hung or left the specification", 
-        "seeded random histories over 9 regions x {nb, async, async+ClassC} x {OTAA, ABP}: joins (JoinAccepts with every DLSettings/RxDelay/CFList kind incl. RFU), sends, downlinks of every class (authentic with MAC-command streams whose fields are drawn from boundary+random sets, replays, forged, foreign, random bytes, oversize), radio faults; every call runs under catch_unwind and an RNG draw budget; distinct = distinct (region/front, event kind, response, frame classes, pending length) tuples",
+        "seeded random histories over 9 regions x {nb, async, async+ClassC} x {OTAA, ABP}: joins (JoinAccepts with every DLSettings/RxDelay/CFList kind incl. RFU), sends, downlinks of every class (authentic with MAC-command streams whose fields are drawn from boundary+random sets, replays, forged, foreign, random bytes, oversize), radio faults; every call runs under catch_unwind, an RNG draw budget and a watchdog; PLUS the enumerations: single-channel walk (every channel index once the only enabled one), nb state machine under free-form event sequences (prefix into each state x every sequence of 2/3 events of a 12-event alphabet), every async procedure (send|join x RX1 x RX2 outcome x fault position) followed by a second one with/without Class C, and the certification / multicast builds under CertTrace.tla + the handler's behaviour model; distinct = distinct (region/front, event kind, response, frame classes, pending length) tuples",
         macfam.COMMON_ASSUMPTIONS + ["a panic or an exhausted draw budget (>10000 draws in one call) is an event no specification action matches, except the listed open finding",
                                      "certification build: CertTrace.tla states only robustness and counter clauses (what each TS009 command should do is outside the listed properties)"],
         # the device built with its certification-protocol handler (non-default cargo feature), under CertTrace.tla
